@@ -571,27 +571,57 @@ func runC35(c *Ctx) {
 			v, _ := rw.ConstVal(call.Args[1])
 			c.Ob("asserted", "proxyRewrite#X-Forwarded-Proto=https", call.Pos(), v == "\"https\"" && after, "X-Forwarded-Proto is the constant https, set after SetXForwarded()")
 		case "X-Forwarded-Host":
-			nset++
-			okVal := strings.Contains(types_ExprString(call.Args[1]), "out.URL.Host") || strings.HasSuffix(valProv, ".Out.URL.Host")
-			if cl, ok := call.Args[1].(*ast.CallExpr); ok && rw.IsCall(cl, "fmt.Sprintf") {
-				okVal = len(cl.Args) == 3 && strings.HasSuffix(rw.Prov(cl.Args[1]), ".Out.URL.Host") && strings.HasSuffix(rw.Prov(cl.Args[2]), ".GatewayPort")
-				okVal = okVal && rw.FactsAt(call).Cmp(func(e, tag ast.Expr, truth bool, fa *Fact) bool {
-					be, ok := e.(*ast.BinaryExpr)
-					if !ok {
-						return false
+			// the value, at each place it is produced: the argument itself, or every return
+			// of the literal that computes it (an inlined "forwarded host" helper). With
+			// the port it is Sprintf("%s:%d", host, GatewayPort) where GatewayPort != 443
+			// is known; bare it is the host where GatewayPort == 443 is known.
+			type vsite struct {
+				g   *Fn
+				at  ast.Node
+				val ast.Expr
+			}
+			var vsites []vsite
+			if lc, ok := ast.Unparen(call.Args[1]).(*ast.CallExpr); ok && rw.litOfCallee(lc) != nil {
+				lit := rw.litOfCallee(lc)
+				h := rw.enclosing(lit).Closure(lit)
+				for _, r := range h.Returns() {
+					if len(r.Results) == 1 {
+						vsites = append(vsites, vsite{h, r, r.Results[0]})
 					}
-					v, _ := rw.ConstVal(be.Y)
-					return ok && !truth && be.Op == token.EQL && v == "443"
-				})
+				}
 			} else {
-				okVal = okVal && rw.FactsAt(call).Cmp(func(e, tag ast.Expr, truth bool, fa *Fact) bool {
-					be, ok := e.(*ast.BinaryExpr)
-					if !ok {
+				vsites = append(vsites, vsite{rw, call, call.Args[1]})
+			}
+			isHost := func(g *Fn, e ast.Expr) bool {
+				pv := g.Prov(e)
+				return strings.HasSuffix(pv, ".Out.URL.Host") || strings.HasSuffix(pv, ".Out.URL.Hostname()")
+			}
+			port443 := func(g *Fn, at ast.Node, want bool) bool {
+				return rw.FactsAt(at).Cmp(func(e, tag ast.Expr, truth bool, fa *Fact) bool {
+					be, ok := ast.Unparen(e).(*ast.BinaryExpr)
+					if !ok || tag != nil || be.Op != token.EQL && be.Op != token.NEQ {
 						return false
 					}
-					v, _ := rw.ConstVal(be.Y)
-					return truth && be.Op == token.EQL && v == "443"
+					x, y := be.X, be.Y
+					if v, _ := g.ConstVal(x); v == "443" {
+						x, y = y, x
+					}
+					v, _ := g.ConstVal(y)
+					if v != "443" || !strings.HasSuffix(g.Prov(x), ".GatewayPort") {
+						return false
+					}
+					return ((be.Op == token.EQL) == truth) == want
 				})
+			}
+			okVal := len(vsites) > 0
+			for _, vs := range vsites {
+				nset++
+				if cl, ok := ast.Unparen(vs.val).(*ast.CallExpr); ok && vs.g.IsCall(cl, "fmt.Sprintf") {
+					f0, _ := vs.g.ConstVal(cl.Args[0])
+					okVal = okVal && len(cl.Args) == 3 && f0 == `"%s:%d"` && isHost(vs.g, cl.Args[1]) && strings.HasSuffix(vs.g.Prov(cl.Args[2]), ".GatewayPort") && port443(vs.g, vs.at, false)
+				} else {
+					okVal = okVal && isHost(vs.g, vs.val) && port443(vs.g, vs.at, true)
+				}
 			}
 			c.Ob("asserted", "proxyRewrite#X-Forwarded-Host", call.Pos(), okVal && after, "X-Forwarded-Host is the outbound URL host, with the gateway port unless it is 443, set after SetXForwarded()")
 		}
